@@ -32,6 +32,9 @@ def check(run):
         run.guard("C13.2.independent-of-blocking", cfg, lambda: rule_independent(run, F, cfg))
         run.guard("C13.3.exception-provenance", cfg, lambda: rule_exceptions(run, F, cfg))
         run.guard("C13.4.redirect-vs-redirect-rule", cfg, lambda: rule_block(run, F, cfg))
+        from . import C04 as _C04r
+        b4r = run.borrow("C04", only=r"function-of-modelled-predicates|routing", why="every redirect rule and every redirect exception has to reach the redirects list, whatever else is loaded with it: the list a rule is filed in depends on the rule alone")
+        run.guard("C13.via.C04.1.routing", cfg, lambda: _C04r.rule_routing(b4r, F, cfg))
         run.guard("C13.5.lookup", cfg, lambda: rule_lookup(run, F, cfg))
         run.guard("C13.6.priority-suffix", cfg, lambda: rule_priority(run, F, cfg))
         run.guard("C13.6.priority-suffix", cfg + "/slices", lambda: rule_priority_slices(run, F, cfg))
